@@ -175,6 +175,7 @@ structure KDump where
   store : Int := 0
   prev : Nat := 1
   curlog : Nat := 0
+  storeAll : Bool := true
   lsig : String := ""
   lhs : String := ""
   dsig : String := "-"
@@ -253,6 +254,9 @@ structure St where
   kB : KDump := {}
   kPrevA : Option (List String) := none   -- durable state that must not change (stale-handle write)
   kPrevB : Option (List String) := none
+  kPrevClause : String := "stale-write"
+  bogus : Nat := 0
+  bogusEven : Nat := 0
   reloaded : List (String × NDump) := []  -- pre-reload live dumps awaiting the post-reload dump
   xA : List String := []                  -- last X line (live extras)
   xB : List String := []
@@ -306,10 +310,7 @@ def mismatch (s : St) (detail : String) : IO St := do
 
 def monitor (s : St) (clause detail : String) : IO St := do
   if s.caseMonitor < 6 then
-    let sfx := match s.taint with
-      | some t => s!" after={t}"
-      | none => ""
-    IO.println s!"MONITOR case={s.caseId} clause={clause} line={s.lines} {detail}{sfx}"
+    IO.println s!"MONITOR case={s.caseId} clause={clause} line={s.lines} {detail}"
   return { s with monitorFails := s.monitorFails + 1, caseMonitor := s.caseMonitor + 1 }
 
 def resOf (ws : List String) : String :=
@@ -399,6 +400,12 @@ def dcDiff (nm : String) (m k : DCommit) : Option String :=
   else if m.lidx != k.lidx then some s!"disk {nm}: htlc log indices model={m.lidx} impl={k.lidx}"
   else none
 
+def secIdx : Sec → Int
+  | .ofHeight h => h
+  | .junk _ => -1
+
+def secOf (i : Int) (j : Nat) : Sec := if i ≥ 0 then .ofHeight i.toNat else .junk j
+
 def diskDiff (m : Disk) (k : KDump) : Option String :=
   (dcDiff "local" m.lc k.lc).orElse fun _ =>
   (dcDiff "remote" m.rc k.rc).orElse fun _ =>
@@ -412,6 +419,8 @@ def diskDiff (m : Disk) (k : KDump) : Option String :=
   else if m.rul.getD [] != k.rulL then some s!"disk remoteUnsignedLocal model={repr (m.rul.getD [])} impl={repr k.rulL}"
   else if m.lwr != k.lwr then some s!"disk lastWasRevoke model={m.lwr} impl={k.lwr}"
   else if (m.stored : Int) != k.store then some s!"disk revocation store model={m.stored} impl={k.store}"
+  else if secIdx m.rcur != k.rcur || secIdx m.rnext != k.rnext then
+    some s!"disk remote commitment points model={secIdx m.rcur},{secIdx m.rnext} impl={k.rcur},{k.rnext}"
   else if m.fwd != k.fwd then some s!"disk fwd packages model={repr m.fwd} impl={repr k.fwd}"
   else none
 
@@ -691,8 +700,8 @@ def probeChecks (s : St) (node : String) : IO St := do
     s ← monitor s "restore-chains" s!"node={node} durable heights local={k.lh} remote={k.rh}, live tails {liveLt},{liveRt}"
   -- revocation bookkeeping of the peer's chain
   if k.rcur != (k.rh : Int) || k.rnext != (k.rh : Int) + 1 || k.store != (k.rh : Int) ||
-     (k.rh > 0 && k.prev != 1) || k.curlog != 0 then
-    s ← monitor s "revocation-state" s!"node={node} remote height {k.rh}: current point idx={k.rcur} next point idx={k.rnext} store={k.store} revlog(prev)={k.prev} revlog(cur)={k.curlog}"
+     (k.rh > 0 && k.prev != 1) || k.curlog != 0 || !k.storeAll then
+    s ← monitor s "revocation-state" s!"node={node} remote height {k.rh}: current point idx={k.rcur} next point idx={k.rnext} store={k.store} revlog(prev)={k.prev} revlog(cur)={k.curlog} store reproduces all earlier secrets={k.storeAll}"
   -- forwarding packages: one per revoked remote height, never changed, no HTLC twice
   let seen := if node == "A" then s.fwdA else s.fwdB
   if k.fwdErr || k.fwd.map (·.height) != (List.range k.rh).map (· + 1) then
@@ -729,7 +738,7 @@ def probeChecks (s : St) (node : String) : IO St := do
     s := { s with staleWrites := s.staleWrites + 1 }
     if old != k.raw then
       let d := (old.zip k.raw).find? (fun (a, b) => a != b)
-      s ← monitor s "stale-write" s!"node={node} durable state changed by a status write / failed operation: {(d.map (fun (a, b) => s!"{a.take 200}  ->  {b.take 200}")).getD "line count"}"
+      s ← monitor s s.kPrevClause s!"node={node} durable state changed by a status write / failed operation / rejected message: {(d.map (fun (a, b) => s!"{a.take 200}  ->  {b.take 200}")).getD "line count"}"
     s := if node == "A" then { s with kPrevA := none } else { s with kPrevB := none }
   return s
 
@@ -1047,7 +1056,7 @@ def step (s : St) (line : String) : IO St := do
         lwr := b01 rest "lwr", ua := (kv? rest "ua").getD "?", rul := (kv? rest "rul").getD "?",
         rcur := intOf ((kv? rest "rcur").getD ""), rnext := intOf ((kv? rest "rnext").getD ""),
         store := intOf ((kv? rest "store").getD ""), prev := (kvNat? rest "prev").getD 0,
-        curlog := (kvNat? rest "curlog").getD 0, lsig := (kv? rest "lsig").getD "", lhs := (kv? rest "lhs").getD "",
+        curlog := (kvNat? rest "curlog").getD 0, storeAll := (kvNat? rest "storeall").getD 1 == 1, lsig := (kv? rest "lsig").getD "", lhs := (kv? rest "lhs").getD "",
         dsig := (kv? rest "dsig").getD "-", raw := [dropStatus line] }
     return updK s node (fun _ => k)
   | "KC" :: node :: which :: rest =>
@@ -1075,11 +1084,38 @@ def step (s : St) (line : String) : IO St := do
   | "V" :: _ =>
     let s ← flush s
     revLine s ws
+  | "W" :: dir :: rest =>
+    -- a dishonest revoke_and_ack handed to ReceiveRevocation
+    let s ← flush s
+    let recv := if dir == "AB" then "B" else "A"
+    let impl := resOf ws
+    let h := (kvNat? rest "h").getD 0
+    let si := intOf ((kv? rest "s").getD "")
+    let npi := intOf ((kv? rest "npi").getD "")
+    let mut s := { s with ops := s.ops + 1, bogus := s.bogus + 1, bogusEven := s.bogusEven + (if h % 2 == 0 then 1 else 0),
+                          dirty := [recv], kPrevClause := "bogus-revocation-persisted" }
+    s := { s with errKinds := bump s.errKinds ("bogus_" ++ impl) }
+    let k := s.kdump recv
+    s := if recv == "A" then { s with kPrevA := some k.raw } else { s with kPrevB := some k.raw }
+    if si != (h : Int) && impl == "ok" then
+      s ← monitor s "bogus-revocation-accepted" s!"node={recv} ReceiveRevocation accepted a revoke_and_ack for remote height {h} whose secret is not the peer's secret of that height ({(kv? rest "kind").getD "?"}, secret index {si}, next point index {npi})"
+    if s.modelOk && !s.borked then
+      let ms := s.model recv
+      if ms.disk.rc.cm.height != h then
+        s ← mismatch s s!"node={recv} bogus revocation: remote height model={ms.disk.rc.cm.height} impl={h}"
+      else
+        let storeAcc := si == (h : Int) || h % 2 == 0
+        let (r, ms') := ms.receiveRevocationMsg storeAcc ⟨secOf si 0, secOf npi 1⟩
+        if r.toString != impl then
+          s ← mismatch s s!"node={recv} bogus revocation ({(kv? rest "kind").getD "?"} h={h}): model={r.toString} impl={impl}"
+        else s := setModel s recv ms'
+    return s
   | "R" :: _ => reloadLine s ws
   | "Y" :: _ => syncLine s ws
   | "T" :: node :: rest =>
     let s ← flush s
     let k := s.kdump node
+    let s := { s with kPrevClause := "stale-write" }
     let s := if node == "A" then { s with kPrevA := some k.raw } else { s with kPrevB := some k.raw }
     let s := if (kv? rest "status") == some "borked" then { s with borked := true } else s
     if resOf ws != "ok" then
@@ -1087,7 +1123,7 @@ def step (s : St) (line : String) : IO St := do
     return s
   | "Z" :: node :: op :: _ =>
     let s ← flush s
-    let mut s := { s with borkedOps := s.borkedOps + 1 }
+    let mut s := { s with borkedOps := s.borkedOps + 1, kPrevClause := "stale-write" }
     let k := s.kdump node
     s := if node == "A" then { s with kPrevA := some k.raw } else { s with kPrevB := some k.raw }
     if op == "revoke" || op == "sign" then
@@ -1127,6 +1163,8 @@ def main : IO Unit := do
   IO.println s!"STAT revocations_checked={s.revsChecked}"
   IO.println s!"STAT stale_handle_writes_checked={s.staleWrites}"
   IO.println s!"STAT failed_write_operations={s.borkedOps}"
+  IO.println s!"STAT dishonest_revocations={s.bogus}"
+  IO.println s!"STAT dishonest_revocations_at_even_heights={s.bogusEven}"
   IO.println s!"STAT theorem_hypotheses_evaluated_on_real_states={s.hypChecks}"
   IO.println s!"STAT log_entries_kept_by_projection={s.keptEntries}"
   IO.println s!"STAT log_entries_dropped_by_projection={s.droppedEntries}"
